@@ -65,7 +65,7 @@ def do_import(pid, n, sub="out", offset=0):
     shutil.copy(patch, os.path.join(dst, "patch.diff"))
     shutil.copy(demo, os.path.join(dst, "demo_test.go.txt"))
     shutil.copy(notes, os.path.join(dst, "notes.md"))
-    meta = {"property": pid, "source": "independent sub-agent given only the property text and a scratch worktree" + (" (round 2: told which ideas round 1 had already used)" if offset else ""),
+    meta = {"property": pid, "source": "independent sub-agent given only the property text and a scratch worktree" + (" (round %d: told which ideas earlier rounds had already used)" % (offset // 2 + 1) if offset else ""),
             "needs_to_manifest": first_lines(notes), "verified_here": ran, "race_demo": race, "checks": {}}
     json.dump(meta, open(os.path.join(dst, "meta.json"), "w"), indent=1)
     print(name, "kept")
@@ -120,6 +120,8 @@ def main():
         do_import(a[1], int(a[2])); return
     if a[0] == "import2":  # round 2: /tmp/wt/<ID>/out2/patchN -> seeded/<ID>-(N+2)
         do_import(a[1], int(a[2]), "out2", 2); return
+    if a[0] == "import3":  # round 3: /tmp/wt/<ID>/out3/patchN -> seeded/<ID>-(N+4)
+        do_import(a[1], int(a[2]), "out3", 4); return
     if a[0] == "reverify":
         names = a[1:] or sorted(os.path.basename(p) for p in glob.glob(os.path.join(HERE, "seeded", "C*-*")))
         with cf.ThreadPoolExecutor(6) as ex:
